@@ -123,11 +123,12 @@ type qQuery struct {
 	offset     int // -1 absent
 	limitFirst bool
 	mayReject  bool // the statement may be rejected (e.g. as ambiguous); if it is answered, the answer must be right
+	lead       string // blanks in front of the text (shifts tokens relative to the scanner's buffer boundaries)
 }
 
 func (q *qQuery) sql() string {
 	var sb strings.Builder
-	sb.WriteString("SELECT ")
+	sb.WriteString(q.lead + "SELECT ")
 	for i, it := range q.items {
 		if i > 0 {
 			sb.WriteString(", ")
